@@ -1501,7 +1501,10 @@ def simulate(chan, spec):
                   "oracleC_skipped_integer_payload": sim.oracleC["skipped_int"],
                   "oracleC_equal_only_within_tolerance": sim.oracleC.get("within_tol", 0),
                   "oracleC_numpy_itself_asymmetric": sim.oracleC.get("numpy_asymmetric", 0),
-                  "oracleB_worlds_compared": 1 if b_info else 0, "calls_raised": len(sim.failed_calls)},
+                  "oracleB_worlds_compared": 1 if b_info else 0, "calls_raised": len(sim.failed_calls),
+                  "sweep_cases_run": 1 if cfg.get("sweep") else 0,
+                  "oracleC_skipped_value_aliases_target": sim.oracleC.get("skipped_value_aliases_target", 0),
+                  "oracleC_twin_refused_bool_payload": sim.oracleC.get("twin_raised_bool_payload", 0)},
     }
 
 
